@@ -42,6 +42,8 @@ func Match(query CompFilter, co *CalendarObject) (matched bool, err error) {
 func match(filter CompFilter, comp *ical.Component) (bool, error) {
 	if comp.Name != filter.Name {
 		return filter.IsNotDefined, nil
+	} else if filter.IsNotDefined {
+		return false, nil
 	}
 
 	var zeroDate time.Time
@@ -79,6 +81,11 @@ func matchCompFilter(filter CompFilter, comp *ical.Component) (bool, error) {
 	var matches []*ical.Component
 
 	for _, child := range comp.Children {
+		if child.Name != filter.Name {
+			continue
+		} else if filter.IsNotDefined {
+			return false, nil
+		}
 		match, err := match(filter, child)
 		if err != nil {
 			return false, err
@@ -97,6 +104,8 @@ func matchPropFilter(filter PropFilter, comp *ical.Component) (bool, error) {
 	field := comp.Props.Get(filter.Name)
 	if field == nil {
 		return filter.IsNotDefined, nil
+	} else if filter.IsNotDefined {
+		return false, nil
 	}
 
 	for _, paramFilter := range filter.ParamFilter {
